@@ -93,6 +93,11 @@ def gen_structured(rng: random.Random):
     return terms, ctx, xs
 
 
+def wire_hints(hints, vm):
+    return [{"t": G.w_term(h["t"], vm), "H": G.w_tl(h["H"], vm), "refine": h["refine"], "idx": h["idx"], "xs": [vm.i(x) for x in h["xs"] if x in vm.idx]}
+            for h in hints if set(G.names_of([h["t"]], h["H"])) <= set(vm.idx)]
+
+
 def _wrap_tlp(log: list):
     """record, for every _get_tlp_context call, the indices of the LP-active rows the implementation saw"""
     import numpy as np
@@ -115,7 +120,7 @@ def _wrap_tlp(log: list):
             r = state["last"]
             if r is not None and r["status"] == 0 and r.get("slack") is not None:
                 idx = [int(i) for i in np.where(np.isclose(r["slack"], 0))[0]]
-                log.append({"t": G.un_term(term), "H": G.un_tl(context), "refine": bool(refine), "idx": idx})
+                log.append({"t": G.un_term(term), "H": G.un_tl(context), "refine": bool(refine), "idx": idx, "xs": [str(x) for x in vars_to_elim]})
 
     P.linprog = lp
     P.PolyhedralTermList._get_tlp_context = staticmethod(tlp)
@@ -204,8 +209,7 @@ class C04(Check):
 
     def model_request(self, case, impl):
         vm = self._vm(case)
-        hints = [{"t": G.w_term(h["t"], vm), "H": G.w_tl(h["H"], vm), "refine": h["refine"], "idx": h["idx"]}
-                 for h in impl.get("hints", []) if set(G.names_of([h["t"]], h["H"])) <= set(vm.idx)]
+        hints = wire_hints(impl.get("hints", []), vm)
         if case["kind"] == "tactic":
             return {"op": "tactic", "k": case["k"], "t": G.w_term(case["t"], vm), "H": G.w_tl(case["H"], vm), "xs": vm.vars(case["xs"]),
                     "refine": case["refine"], "hints": hints}
